@@ -16,6 +16,8 @@ def scenarios(tp):
     if tp == "utlst":           # a utls client of a plain tls server: the TLS leg of utls
         return ["normal", "garbage2", "ctlflood", "blocking", "longidle", "ctl3"]
     s = ["normal", "refused", "idle", "ctlflood", "blocking", "accfail", "ctl3"]
+    if tp in ("ux", "uxf", "utls"):
+        s.append("uxfull")
     if tp in TCP_BASED:
         s.append("silent")
         s.append("longidle")
